@@ -2,74 +2,839 @@
 
 package pathdb
 
+// C16: layered state reads return exactly the requested state.
+//
+// A rapid-driven machine grows a tree of state layers (forks, repeated roots, empty
+// transitions) through Database.Update / Database.Commit with small write buffers
+// and optional asynchronous flushing, and after every step compares every read
+// (account, storage slot, trie node) at every root against the per-root model of
+// pdbWorld and the kit/reftrie node sets. Roots whose layer was dropped must fail
+// to open; readers opened earlier must return an error or the model value.
+
 import (
+	"bytes"
 	"fmt"
+	"runtime"
+	"sort"
+	"strings"
+	"sync"
+	"sync/atomic"
 	"testing"
 
 	"github.com/ethereum/go-ethereum/common"
 	"github.com/ethereum/go-ethereum/core/rawdb"
-	"github.com/ethereum/go-ethereum/core/types"
+	"github.com/ethereum/go-ethereum/triedb/database"
+	"pgregory.net/rapid"
 	"verif.local/kit/reftrie"
+	vs "verif.local/kit/stat"
 )
 
-func TestVerifC16Scratch(t *testing.T) {
-	maxDiffLayers = 2
-	defer func() { maxDiffLayers = 128 }()
-	w := newPdbWorld()
-	db := New(rawdb.NewMemoryDatabase(), &Config{WriteBufferSize: 1 << 20, NoAsyncFlush: true, NoAsyncGeneration: true, TrienodeHistory: -1}, false)
-	defer db.Close()
-	step := func(parent common.Hash, ops []pdbOp) common.Hash {
-		tr := w.Transition(parent, ops, w.NextSeq(), false)
-		err := db.Update(tr.Root, tr.Parent, 0, tr.Nodes, tr.States)
-		fmt.Printf("update %x <- %x err=%v base=%x layers=%d\n", tr.Root[:4], tr.Parent[:4], err, db.tree.bottom().rootHash().Bytes()[:4], db.tree.len())
-		return tr.Root
+// Known finding class (see notes/C16.md "Suspected defect"): layerTree.cap leaves
+// sibling forks of the capped path linked to the replaced diff layer.
+const c16KnownFork = "fork-on-flattened-parent"
+
+type c16Fataler interface {
+	Fatalf(string, ...any)
+}
+
+type c16Spec struct {
+	parent common.Hash
+	ops    []pdbOp
+	seq    uint64
+	raw    bool
+}
+
+type c16Held struct {
+	root common.Hash
+	at   int // number of trace entries when the readers were opened
+	sr   database.StateReader
+	nr   database.NodeReader
+}
+
+type c16Machine struct {
+	t         c16Fataler
+	w         *pdbWorld
+	db        *Database
+	maxLayers int
+	gated     bool // known finding listed: avoid its trigger by construction
+
+	live     map[common.Hash]bool
+	parent   map[common.Hash]common.Hash
+	dangling map[common.Hash]bool
+	touchedA map[common.Hash]map[common.Hash]bool
+	touchedS map[common.Hash]map[[2]common.Hash]bool
+	spec     map[common.Hash]c16Spec
+	base     common.Hash
+	head     common.Hash
+	held     []c16Held
+	allPaths map[common.Hash]map[string]common.Hash // owner -> path -> hash of some node seen there
+	rebased  map[common.Hash]int                    // root -> trace position at which its diff layer was flattened into the disk layer
+
+	// statistics
+	trace                                     []string
+	deepRead, bufferRead, frozenRead, diskHit int
+	staleErr, deadOpenErr, danglingErr        int
+	caps, commits, forks, repeats, empties    int
+	recreates, reads, excluded                int
+	visit                                     int  // rotates the refused-read probes
+	fullProbe                                 bool // probe every absent path (final verification)
+}
+
+func newC16Machine(t c16Fataler, db *Database, w *pdbWorld, maxLayers int) *c16Machine {
+	m := &c16Machine{
+		t: t, w: w, db: db, maxLayers: maxLayers,
+		gated:    vs.Known("TestVerifC16Machine", c16KnownFork),
+		live:     map[common.Hash]bool{},
+		parent:   map[common.Hash]common.Hash{},
+		dangling: map[common.Hash]bool{},
+		touchedA: map[common.Hash]map[common.Hash]bool{},
+		touchedS: map[common.Hash]map[[2]common.Hash]bool{},
+		spec:     map[common.Hash]c16Spec{},
+		allPaths: map[common.Hash]map[string]common.Hash{},
+		rebased:  map[common.Hash]int{},
 	}
-	readAll := func(root common.Hash) {
-		nr, err := db.NodeReader(root)
-		if err != nil {
-			fmt.Printf("  nodereader %x: %v\n", root[:4], err)
-			return
+	m.base = w.Roots()[0]
+	m.head = m.base
+	m.live[m.base] = true
+	return m
+}
+
+func (m *c16Machine) logf(format string, a ...any) {
+	m.trace = append(m.trace, fmt.Sprintf(format, a...))
+}
+
+func (m *c16Machine) fail(format string, a ...any) {
+	tail := m.trace
+	if len(tail) > 80 {
+		tail = tail[len(tail)-80:]
+	}
+	m.t.Fatalf("%s\nmaxDiffLayers=%d history (last %d steps):\n  %s", fmt.Sprintf(format, a...), m.maxLayers, len(tail), strings.Join(tail, "\n  "))
+}
+
+// liveList returns the live roots in world creation order (deterministic).
+func (m *c16Machine) liveList(includeDangling bool) []common.Hash {
+	var out []common.Hash
+	for _, r := range m.w.Roots() {
+		if m.live[r] && (includeDangling || !m.dangling[r]) {
+			out = append(out, r)
 		}
-		ref := w.RefNodes(root)
-		ok, bad := 0, 0
-		for p, b := range ref.Account {
-			got, err := nr.Node(common.Hash{}, []byte(p), common.Hash(reftrie.Keccak256(b)))
-			if err != nil {
-				bad++
-				fmt.Printf("  node %x path %x: %v\n", root[:4], p, err)
-			} else if string(got) != string(b) {
-				t.Fatalf("wrong node")
-			} else {
-				ok++
-			}
+	}
+	return out
+}
+
+func (m *c16Machine) deadList() []common.Hash {
+	var out []common.Hash
+	for _, r := range m.w.Roots() {
+		if !m.live[r] {
+			out = append(out, r)
 		}
-		sr, _ := db.StateReader(root)
-		for _, a := range w.AllAccountHashes() {
-			acc, err := sr.(*reader).AccountRLP(a)
-			if err != nil {
-				fmt.Printf("  account %x: %v\n", a[:4], err)
-			} else if string(acc) != string(w.State(root).AccountBlob(a)) {
-				t.Fatalf("wrong account")
-			}
+	}
+	return out
+}
+
+func (m *c16Machine) isAncestorOrSelf(anc, r common.Hash) bool {
+	for {
+		if r == anc {
+			return true
 		}
-		fmt.Printf("  root %x nodes ok=%d err=%d\n", root[:4], ok, bad)
-	}
-	a := step(types.EmptyRootHash, []pdbOp{{pdbOpCreate, 0, 0, 1}, {pdbOpCreate, 1, 0, 1}, {pdbOpCreate, 3, 0, 1}})
-	b := step(a, []pdbOp{{pdbOpCreate, 2, 0, 1}})
-	b2 := step(a, []pdbOp{{pdbOpCreate, 4, 0, 2}})
-	c := step(b, []pdbOp{{pdbOpCreate, 5, 0, 1}})
-	for _, r := range []common.Hash{a, b, b2, c} {
-		readAll(r)
-	}
-	c2 := step(b2, []pdbOp{{pdbOpCreate, 6, 0, 1}})
-	readAll(c2)
-	d2 := step(c2, []pdbOp{{pdbOpCreate, 7, 0, 1}})
-	for _, r := range []common.Hash{a, b, b2, c, c2, d2} {
-		readAll(r)
-	}
-	d := step(c, []pdbOp{{pdbOpModify, 0, 0, 1}})
-	for _, r := range []common.Hash{a, b, b2, c, c2, d2, d} {
-		readAll(r)
+		if r == m.base {
+			return false
+		}
+		p, ok := m.parent[r]
+		if !ok {
+			return false
+		}
+		r = p
 	}
 }
 
+// modelCap mirrors layerTree.cap(root, layers) for layers > 0 on the model tree.
+func (m *c16Machine) modelCap(root common.Hash) {
+	if root == m.base {
+		return
+	}
+	d := root
+	for i := 0; i < m.maxLayers-1; i++ {
+		p := m.parent[d]
+		if p == m.base {
+			return
+		}
+		d = p
+	}
+	p := m.parent[d]
+	if p == m.base {
+		return
+	}
+	m.caps++
+	m.rebase(p, d)
+}
+
+// rebase makes newBase the disk layer. keep is the child of newBase on the capped
+// path (zero for a full commit): other surviving children of newBase dangle.
+func (m *c16Machine) rebase(newBase, keep common.Hash) {
+	for _, r := range m.liveList(true) {
+		if r == newBase {
+			continue
+		}
+		if !m.isAncestorOrSelf(newBase, r) || keep == (common.Hash{}) {
+			delete(m.live, r)
+			delete(m.dangling, r)
+			delete(m.parent, r)
+			continue
+		}
+		if !m.isAncestorOrSelf(keep, r) {
+			m.dangling[r] = true
+		}
+	}
+	delete(m.parent, newBase)
+	m.rebased[newBase] = len(m.trace)
+	m.base = newBase
+	if !m.live[m.head] {
+		m.head = newBase
+	}
+}
+
+func (m *c16Machine) register(tr *pdbTransition) {
+	m.live[tr.Root] = true
+	m.parent[tr.Root] = tr.Parent
+	if m.dangling[tr.Parent] {
+		m.dangling[tr.Root] = true
+	}
+	ta := map[common.Hash]bool{}
+	for _, a := range tr.Accounts {
+		ta[a] = true
+	}
+	ts := map[[2]common.Hash]bool{}
+	for _, s := range tr.Slots {
+		ts[s] = true
+	}
+	m.touchedA[tr.Root], m.touchedS[tr.Root] = ta, ts
+	m.spec[tr.Root] = c16Spec{tr.Parent, tr.Ops, tr.Seq, tr.Raw}
+	ref := m.w.RefNodes(tr.Root)
+	note := func(owner common.Hash, set map[string][]byte) {
+		if m.allPaths[owner] == nil {
+			m.allPaths[owner] = map[string]common.Hash{}
+		}
+		for p, b := range set {
+			m.allPaths[owner][p] = common.Hash(reftrie.Keccak256(b))
+		}
+	}
+	note(common.Hash{}, ref.Account)
+	for o, set := range ref.Storage {
+		note(o, set)
+	}
+}
+
+// update performs Database.Update for a freshly built transition and advances the model.
+func (m *c16Machine) update(tr *pdbTransition, claimedParent common.Hash) {
+	wasLive := m.live[tr.Root]
+	err := m.db.Update(tr.Root, claimedParent, uint64(len(m.trace)), tr.Nodes, tr.States)
+	switch {
+	case tr.Root == claimedParent:
+		m.empties++
+		m.logf("update-empty %x<-%x err=%v", tr.Root[:4], claimedParent[:4], err)
+		if err == nil {
+			m.fail("Update with root == parent %x was accepted", tr.Root)
+		}
+	case wasLive:
+		// repeated root: layerTree.add documents a silent no-op (the cap that follows
+		// may complain when the root is the disk layer); nothing may change.
+		m.repeats++
+		m.logf("update-repeat %x<-%x err=%v", tr.Root[:4], claimedParent[:4], err)
+	default:
+		m.logf("update %x<-%x ops=%v seq=%d err=%v", tr.Root[:4], claimedParent[:4], tr.Ops, tr.Seq, err)
+		if err != nil {
+			m.fail("Update(%x <- %x) failed: %v", tr.Root, claimedParent, err)
+		}
+		for _, r := range m.liveList(true) {
+			if m.parent[r] == tr.Parent && r != tr.Root {
+				m.forks++
+				break
+			}
+		}
+		if tr.Recreated {
+			m.recreates++
+		}
+		m.register(tr)
+		m.head = tr.Root
+		m.modelCap(tr.Root)
+	}
+	m.audit()
+}
+
+func (m *c16Machine) commit(root common.Hash) {
+	err := m.db.Commit(root, false)
+	m.logf("commit %x err=%v", root[:4], err)
+	if root != m.base { // committing the disk layer itself is refused or a no-op; either way nothing changes
+
+		if err != nil {
+			m.fail("Commit(%x) failed: %v", root, err)
+		}
+		m.commits++
+		m.rebase(root, common.Hash{})
+	}
+	m.audit()
+}
+
+// audit compares the shape of the layer tree with the model.
+func (m *c16Machine) audit() {
+	if got := m.db.tree.bottom().rootHash(); got != m.base {
+		m.fail("disk layer root is %x, model expects %x", got, m.base)
+	}
+	if got := m.db.tree.len(); got != len(m.live) {
+		var have []string
+		m.db.tree.forEach(func(l layer) { h := l.rootHash(); have = append(have, fmt.Sprintf("%x", h[:4])) })
+		m.fail("layer tree holds %d layers %v, model expects %d", got, have, len(m.live))
+	}
+}
+
+func c16Same(a, b []byte) bool { return (len(a) == 0 && len(b) == 0) || bytes.Equal(a, b) }
+
+// servedBy classifies which layer serves key at root in the model: the distance to
+// the first layer on the parent chain that touched it, or -1 when the disk layer does.
+func (m *c16Machine) servedBy(root common.Hash, touched func(r common.Hash) bool) (depth int, tip common.Hash) {
+	r := root
+	for d := 0; ; d++ {
+		if r == m.base {
+			return -1, m.base
+		}
+		if touched(r) {
+			return d, r
+		}
+		r = m.parent[r]
+	}
+}
+
+// verifyReads checks every read at root through the given readers. strict: every
+// read must succeed; otherwise an error is acceptable but a value must be the model's.
+func (m *c16Machine) verifyReads(root common.Hash, sr database.StateReader, nr database.NodeReader, strict bool, what string) {
+	st := m.w.State(root)
+	rd := sr.(*reader)
+	onErr := func(kind string, err error) {
+		if strict {
+			m.fail("%s read at %s root %x failed: %v", kind, what, root, err)
+		}
+		if m.dangling[root] {
+			m.danglingErr++
+		} else {
+			m.staleErr++
+		}
+	}
+	dl := m.db.tree.bottom()
+	for _, a := range m.w.AllAccountHashes() {
+		m.reads++
+		got, err := rd.AccountRLP(a)
+		if err != nil {
+			onErr("account", err)
+		} else if want := st.AccountBlob(a); !c16Same(got, want) {
+			m.fail("account %x at %s root %x: got %x, model %x", a, what, root, got, want)
+		}
+		if strict {
+			depth, tip := m.servedBy(root, func(r common.Hash) bool { return m.touchedA[r][a] })
+			if gotTip, ok := m.db.tree.lookup.accountTip(a, root, m.base); !ok || gotTip != tip {
+				m.fail("lookup.accountTip(%x, %x) = %x,%v; the first layer on the parent chain holding it is %x", a, root, gotTip, ok, tip)
+			}
+			switch {
+			case depth >= 2:
+				m.deepRead++
+			case depth == -1:
+				if _, ok := dl.buffer.account(a); ok {
+					m.bufferRead++
+				} else if dl.frozen != nil {
+					if _, ok := dl.frozen.account(a); ok {
+						m.frozenRead++
+					}
+				} else {
+					m.diskHit++
+				}
+			}
+		}
+		for _, s := range m.w.AllSlotHashes() {
+			m.reads++
+			got, err := rd.Storage(a, s)
+			if err != nil {
+				onErr("storage", err)
+			} else if want := st.SlotBlob(a, s); !c16Same(got, want) {
+				m.fail("slot %x/%x at %s root %x: got %x, model %x", a, s, what, root, got, want)
+			}
+			if strict {
+				key := [2]common.Hash{a, s}
+				depth, tip := m.servedBy(root, func(r common.Hash) bool { return m.touchedS[r][key] })
+				if gotTip, ok := m.db.tree.lookup.storageTip(a, s, root, m.base); !ok || gotTip != tip {
+					m.fail("lookup.storageTip(%x, %x, %x) = %x,%v; the first layer on the parent chain holding it is %x", a, s, root, gotTip, ok, tip)
+				}
+				if depth >= 2 {
+					m.deepRead++
+				} else if depth == -1 {
+					if _, ok := dl.buffer.storage(a, s); ok {
+						m.bufferRead++
+					} else if dl.frozen != nil {
+						if _, ok := dl.frozen.storage(a, s); ok {
+							m.frozenRead++
+						}
+					}
+				}
+			}
+		}
+	}
+	if nr == nil {
+		return
+	}
+	ref := m.w.RefNodes(root)
+	owners := make([]common.Hash, 0, len(m.allPaths))
+	for o := range m.allPaths {
+		owners = append(owners, o)
+	}
+	for _, owner := range pdbSortHashes(owners) {
+		set := ref.set(owner)
+		paths := make([]string, 0, len(m.allPaths[owner]))
+		for p := range m.allPaths[owner] {
+			paths = append(paths, p)
+		}
+		sort.Strings(paths)
+		probes := 0
+		for i, p := range paths {
+			m.reads++
+			// reads that are expected to be refused go through geth's error path (formatting
+			// the blob); only a rotating handful per trie and visit is probed that way
+			probe := probes < 3 && (i+m.visit)%4 == 0
+			if want, ok := set[p]; ok {
+				got, err := nr.Node(owner, []byte(p), common.Hash(reftrie.Keccak256(want)))
+				if err != nil {
+					onErr("node", err)
+				} else if !bytes.Equal(got, want) {
+					m.fail("node %x/%x at %s root %x: got %x, reference %x", owner, p, what, root, got, want)
+				}
+				if probe {
+					probes++
+					// a wrong hash must never be answered with data
+					if got, err := nr.Node(owner, []byte(p), common.Hash{0xba, 0xd0}); err == nil && len(got) != 0 {
+						m.fail("node %x/%x at root %x returned %x for a mismatching hash", owner, p, root, got)
+					}
+				}
+			} else if probe || m.fullProbe {
+				probes++
+				// no node at this path in this state: asking for another state's node there must not yield data
+				got, err := nr.Node(owner, []byte(p), m.allPaths[owner][p])
+				if err == nil && len(got) != 0 {
+					m.fail("node %x/%x does not exist at %s root %x but the read returned %x", owner, p, what, root, got)
+				}
+			}
+		}
+	}
+	m.visit++
+}
+
+// verifyAll checks availability and reads at the selected roots and through held readers.
+func (m *c16Machine) verifyAll(maxLive, maxDead int) {
+	live := m.liveList(true)
+	if maxLive > 0 && len(live) > maxLive {
+		// always keep the base, its children, the head and its parent and the forks left
+		// on the flattened parent; rotate through the rest
+		var sel, rest []common.Hash
+		for _, r := range live {
+			if r == m.base || r == m.head || r == m.parent[m.head] || m.parent[r] == m.base || m.dangling[r] {
+				sel = append(sel, r)
+			} else {
+				rest = append(rest, r)
+			}
+		}
+		for i := 0; len(sel) < maxLive && i < len(rest); i++ {
+			sel = append(sel, rest[(i*7+m.visit)%len(rest)])
+		}
+		live = sel
+	}
+	for _, r := range live {
+		sr, err := m.db.StateReader(r)
+		if err != nil {
+			m.fail("StateReader(%x) on a live root failed: %v", r, err)
+		}
+		nr, err := m.db.NodeReader(r)
+		if err != nil {
+			m.fail("NodeReader(%x) on a live root failed: %v", r, err)
+		}
+		strict := !m.dangling[r] || !m.gated
+		what := "live"
+		if m.dangling[r] {
+			what = "dangling-fork"
+		}
+		m.verifyReads(r, sr, nr, strict, what)
+	}
+	dead := m.deadList()
+	if maxDead > 0 && len(dead) > maxDead {
+		dead = dead[len(dead)-maxDead:]
+	}
+	for _, r := range dead {
+		if _, err := m.db.StateReader(r); err == nil {
+			m.fail("StateReader(%x) opened although the layer was dropped", r)
+		}
+		if _, err := m.db.NodeReader(r); err == nil {
+			m.fail("NodeReader(%x) opened although the layer was dropped", r)
+		}
+		m.deadOpenErr++
+		for _, a := range m.w.AllAccountHashes()[:3] {
+			if tip, ok := m.db.tree.lookup.accountTip(a, r, m.base); ok {
+				m.fail("lookup.accountTip(%x, dropped root %x) resolved to %x", a, r, tip)
+			}
+		}
+	}
+	for _, h := range m.held {
+		// A reader holds its layer object. Once that very layer has been flattened into the
+		// disk layer the reader counts as one "whose layer was dropped" (error or model value),
+		// although the same root is still served by the new disk layer to fresh readers.
+		at, flattened := m.rebased[h.root]
+		strict := m.live[h.root] && (!m.dangling[h.root] || !m.gated) && !(flattened && at >= h.at)
+		m.verifyReads(h.root, h.sr, h.nr, strict, "held-reader")
+	}
+}
+
+type c16Config struct {
+	maxLayers  int
+	bufSize    int
+	noAsync    bool
+	cleanCache int
+	steps      int
+	class      string
+}
+
+func c16DrawConfig(rt *rapid.T) c16Config {
+	var c c16Config
+	deepMax := 160
+	if vs.Thorough() {
+		deepMax = 200
+	}
+	switch k := rapid.IntRange(0, 19).Draw(rt, "shape"); {
+	case k < 2: // production constant, chain grown past 128 layers
+		c.maxLayers, c.steps, c.class = 128, rapid.IntRange(140, deepMax).Draw(rt, "steps"), "cap128"
+	case k < 4: // production constant, shallow tree
+		c.maxLayers, c.steps, c.class = 128, rapid.IntRange(5, 40).Draw(rt, "steps"), "shallow128"
+	default: // lowered cap as the package's own tests do
+		c.maxLayers = rapid.SampledFrom([]int{1, 2, 3, 5, 8}).Draw(rt, "maxDiffLayers")
+		c.steps, c.class = rapid.IntRange(5, 60).Draw(rt, "steps"), fmt.Sprintf("cap%d", c.maxLayers)
+	}
+	c.bufSize = rapid.SampledFrom([]int{0, 1024, 64 * 1024}).Draw(rt, "writeBuffer")
+	c.noAsync = rapid.Bool().Draw(rt, "noAsyncFlush")
+	c.cleanCache = rapid.SampledFrom([]int{0, 64 * 1024}).Draw(rt, "cleanCache")
+	return c
+}
+
+func TestVerifC16Machine(t *testing.T) {
+	st := vs.New("C16", t)
+	defer func(old int) { maxDiffLayers = old }(maxDiffLayers)
+	vs.Check(t, 1, func(rt *rapid.T) {
+		c := st.Case()
+		cfg := c16DrawConfig(rt)
+		maxDiffLayers = cfg.maxLayers
+		disk := rawdb.NewMemoryDatabase()
+		db := New(disk, &Config{
+			WriteBufferSize: cfg.bufSize, NoAsyncFlush: cfg.noAsync, NoAsyncGeneration: true,
+			TrieCleanSize: cfg.cleanCache, StateCleanSize: cfg.cleanCache, TrienodeHistory: -1,
+		}, false)
+		defer func() {
+			db.Close()
+			disk.Close()
+		}()
+		w := newPdbWorld()
+		m := newC16Machine(rt, db, w, cfg.maxLayers)
+		deep := cfg.maxLayers == 128
+		for step := 0; step < cfg.steps; step++ {
+			act := rapid.IntRange(0, 99).Draw(rt, "action")
+			forceHead := false
+			if cfg.class == "cap128" && act >= 5 && act < 96 {
+				act, forceHead = 0, true // mostly extend the head so that the chain passes 128 layers
+			}
+			switch {
+			case act < 62: // new layer
+				cands := m.liveList(!m.gated)
+				parent := m.head
+				if m.gated && m.dangling[parent] {
+					parent = cands[len(cands)-1]
+				}
+				if !forceHead && rapid.IntRange(0, 99).Draw(rt, "fork") < 30 {
+					parent = cands[rapid.IntRange(0, len(cands)-1).Draw(rt, "parent")]
+				}
+				if m.gated && len(m.dangling) > 0 {
+					m.excluded++ // forks hanging on the flattened parent are not extended (known finding)
+				}
+				ops := pdbDrawOps(rt, w.State(parent), rapid.IntRange(1, 4).Draw(rt, "nops"))
+				tr := w.Transition(parent, ops, w.NextSeq(), rapid.Bool().Draw(rt, "rawKeys"))
+				m.update(tr, tr.Parent)
+			case act < 70: // repeated root
+				var cands []common.Hash
+				for _, r := range m.liveList(!m.gated) {
+					if sp, ok := m.spec[r]; ok && w.State(sp.parent) != nil {
+						cands = append(cands, r)
+					}
+				}
+				if len(cands) == 0 {
+					continue
+				}
+				r := cands[rapid.IntRange(0, len(cands)-1).Draw(rt, "repeat")]
+				sp := m.spec[r]
+				tr := w.Transition(sp.parent, sp.ops, sp.seq, sp.raw)
+				if tr.Root != r {
+					rt.Fatalf("VERIF-HARNESS-BUG: rebuilt transition has root %x, expected %x", tr.Root, r)
+				}
+				claimed := sp.parent
+				if live := m.liveList(true); rapid.Bool().Draw(rt, "otherParent") {
+					claimed = live[rapid.IntRange(0, len(live)-1).Draw(rt, "claimed")]
+				}
+				m.update(tr, claimed)
+			case act < 75: // empty transition
+				live := m.liveList(!m.gated)
+				parent := live[rapid.IntRange(0, len(live)-1).Draw(rt, "parent")]
+				var ops []pdbOp
+				if rapid.Bool().Draw(rt, "ineffectiveOp") {
+					ops = []pdbOp{{pdbOpDelSlot, rapid.IntRange(0, pdbNumAddrs-1).Draw(rt, "acct"), rapid.IntRange(0, pdbNumSlots-1).Draw(rt, "slot"), 0}}
+				}
+				tr := w.Transition(parent, ops, 0, false)
+				if tr.Root != tr.Parent {
+					continue // the ops happened to be effective; not the case wanted here
+				}
+				m.update(tr, tr.Parent)
+			case act < 83: // full commit
+				live := m.liveList(!m.gated)
+				root := m.head
+				if m.gated && m.dangling[root] {
+					root = live[len(live)-1]
+				}
+				if rapid.IntRange(0, 3).Draw(rt, "commitAny") == 0 {
+					root = live[rapid.IntRange(0, len(live)-1).Draw(rt, "commitRoot")]
+				}
+				m.commit(root)
+			case act < 92: // open readers that are kept across later flattening
+				roots := w.Roots()
+				r := roots[rapid.IntRange(0, len(roots)-1).Draw(rt, "readerRoot")]
+				sr, err1 := db.StateReader(r)
+				nr, err2 := db.NodeReader(r)
+				if (err1 == nil) != m.live[r] || (err2 == nil) != m.live[r] {
+					m.fail("readers at %x: StateReader err=%v NodeReader err=%v, live in model: %v", r, err1, err2, m.live[r])
+				}
+				if err1 == nil && len(m.held) < 12 {
+					m.held = append(m.held, c16Held{r, len(m.trace), sr, nr})
+					m.logf("hold reader %x", r[:4])
+				}
+			default:
+				if !deep {
+					m.verifyAll(0, 0)
+				}
+			}
+			if !deep || step%24 == 0 {
+				m.verifyAll(6, 6)
+			}
+		}
+		m.fullProbe = true
+		if deep {
+			m.verifyAll(40, 20)
+		} else {
+			m.verifyAll(0, 0)
+		}
+		if err := db.tree.bottom().waitFlush(); err != nil {
+			m.fail("background flush failed: %v", err)
+		}
+
+		nontrivial := m.deepRead > 0 || m.bufferRead > 0 || m.frozenRead > 0 || m.staleErr > 0
+		c.NonTrivial(nontrivial, strings.Join(m.trace, ";"))
+		c.Class(cfg.class)
+		c.Classf("buf=%d async=%v", cfg.bufSize, !cfg.noAsync)
+		for label, n := range map[string]int{
+			"has-cap": m.caps, "has-commit": m.commits, "has-fork": m.forks, "has-repeat": m.repeats,
+			"has-empty-rejected": m.empties, "has-recreate": m.recreates, "read-deep-diff": m.deepRead,
+			"read-live-buffer": m.bufferRead, "read-frozen-buffer": m.frozenRead, "read-stale-error": m.staleErr,
+			"dead-root-open-refused": m.deadOpenErr, "dangling-fork-seen": len(m.dangling) + m.danglingErr,
+		} {
+			if n > 0 {
+				c.Class(label)
+			}
+		}
+		if m.excluded > 0 {
+			st.Excluded()
+			c.Class("known-fork-not-extended")
+		}
+		c.Sample(nontrivial, func() any {
+			tr := m.trace
+			if len(tr) > 12 {
+				tr = tr[:12]
+			}
+			return map[string]any{"config": fmt.Sprintf("%+v", cfg), "first_steps": tr, "reads": m.reads,
+				"caps": m.caps, "deep_reads": m.deepRead, "buffer_reads": m.bufferRead, "frozen_reads": m.frozenRead, "stale_errors": m.staleErr}
+		})
+	})
+}
+
+// TestVerifC16Conc runs reader goroutines over (root, key) pairs while the main
+// goroutine applies a pre-generated history (updates with capping, commits and
+// flushes). Every concurrent read must return the model value of its root or an error.
+func TestVerifC16Conc(t *testing.T) {
+	st := vs.New("C16", t)
+	defer func(old int) { maxDiffLayers = old }(maxDiffLayers)
+	mult := 0.12
+	vs.Check(t, mult, func(rt *rapid.T) {
+		c := st.Case()
+		maxDiffLayers = rapid.SampledFrom([]int{2, 3, 5}).Draw(rt, "maxDiffLayers")
+		bufSize := rapid.SampledFrom([]int{0, 1024, 64 * 1024}).Draw(rt, "writeBuffer")
+		procs := rapid.SampledFrom([]int{1, 2, 4, 16}).Draw(rt, "gomaxprocs")
+		defer runtime.GOMAXPROCS(runtime.GOMAXPROCS(procs))
+		disk := rawdb.NewMemoryDatabase()
+		db := New(disk, &Config{WriteBufferSize: bufSize, NoAsyncFlush: false, NoAsyncGeneration: true,
+			TrieCleanSize: 64 * 1024, StateCleanSize: 64 * 1024, TrienodeHistory: -1}, false)
+		defer func() {
+			db.Close()
+			disk.Close()
+		}()
+		// pre-generate a linear history with occasional short side forks
+		w := newPdbWorld()
+		type step struct {
+			tr     *pdbTransition
+			commit bool
+		}
+		var (
+			plan []step
+			head = w.Roots()[0]
+			n    = rapid.IntRange(20, 60).Draw(rt, "steps")
+		)
+		for i := 0; i < n; i++ {
+			parent := head
+			side := rapid.IntRange(0, 9).Draw(rt, "side") == 0
+			tr := w.Transition(parent, pdbDrawOps(rt, w.State(parent), rapid.IntRange(1, 4).Draw(rt, "nops")), w.NextSeq(), false)
+			plan = append(plan, step{tr, !side && rapid.IntRange(0, 11).Draw(rt, "commit") == 0})
+			if !side {
+				head = tr.Root
+			}
+		}
+		roots := append([]common.Hash{}, w.Roots()...)
+		accts, slots := w.AllAccountHashes(), w.AllSlotHashes()
+		refs := map[common.Hash]*pdbRefNodes{}
+		for _, r := range roots {
+			refs[r] = w.RefNodes(r)
+		}
+		var (
+			stop     atomic.Bool
+			wg       sync.WaitGroup
+			okReads  atomic.Int64
+			errReads atomic.Int64
+			failMu   sync.Mutex
+			failure  string
+		)
+		readers := rapid.IntRange(2, 6).Draw(rt, "readers")
+		seed := rapid.Uint64().Draw(rt, "readerSeed")
+		for g := 0; g < readers; g++ {
+			wg.Add(1)
+			go func(x uint64) {
+				defer wg.Done()
+				next := func() uint64 { x ^= x << 13; x ^= x >> 7; x ^= x << 17; return x }
+				report := func(s string) {
+					failMu.Lock()
+					if failure == "" {
+						failure = s
+					}
+					failMu.Unlock()
+					stop.Store(true)
+				}
+				for !stop.Load() {
+					r := roots[next()%uint64(len(roots))]
+					sr, err := db.StateReader(r)
+					if err != nil {
+						errReads.Add(1)
+						if next()%4 == 0 {
+							runtime.Gosched()
+						}
+						continue
+					}
+					nr, _ := db.NodeReader(r)
+					model := w.states[r] // read-only: the world is complete before the readers start
+					for k := 0; k < 6 && !stop.Load(); k++ {
+						a := accts[next()%uint64(len(accts))]
+						switch next() % 3 {
+						case 0:
+							got, err := sr.(*reader).AccountRLP(a)
+							if err != nil {
+								errReads.Add(1)
+							} else if !c16Same(got, model.AccountBlob(a)) {
+								report(fmt.Sprintf("concurrent account read %x at root %x: got %x, model %x", a, r, got, model.AccountBlob(a)))
+							} else {
+								okReads.Add(1)
+							}
+						case 1:
+							s := slots[next()%uint64(len(slots))]
+							got, err := sr.Storage(a, s)
+							if err != nil {
+								errReads.Add(1)
+							} else if !c16Same(got, model.SlotBlob(a, s)) {
+								report(fmt.Sprintf("concurrent slot read %x/%x at root %x: got %x, model %x", a, s, r, got, model.SlotBlob(a, s)))
+							} else {
+								okReads.Add(1)
+							}
+						default:
+							if nr == nil {
+								continue
+							}
+							for p, want := range refs[r].Account {
+								got, err := nr.Node(common.Hash{}, []byte(p), common.Hash(reftrie.Keccak256(want)))
+								if err != nil {
+									errReads.Add(1)
+								} else if !bytes.Equal(got, want) {
+									report(fmt.Sprintf("concurrent node read %x at root %x: got %x, reference %x", p, r, got, want))
+								} else {
+									okReads.Add(1)
+								}
+								break
+							}
+						}
+						if next()%8 == 0 {
+							runtime.Gosched()
+						}
+					}
+				}
+			}(seed + uint64(g)*0x9e3779b97f4a7c15 + 1)
+		}
+		var updateErr error
+		for i, s := range plan {
+			if stop.Load() {
+				break
+			}
+			if db.tree.get(s.tr.Parent) == nil {
+				continue // the parent went away with an earlier commit (side fork)
+			}
+			if err := db.Update(s.tr.Root, s.tr.Parent, uint64(i), s.tr.Nodes, s.tr.States); err != nil {
+				updateErr = fmt.Errorf("Update(%x<-%x): %v", s.tr.Root, s.tr.Parent, err)
+				break
+			}
+			if s.commit {
+				if err := db.Commit(s.tr.Root, false); err != nil {
+					updateErr = fmt.Errorf("Commit(%x): %v", s.tr.Root, err)
+					break
+				}
+			}
+			runtime.Gosched()
+		}
+		stop.Store(true)
+		wg.Wait()
+		if updateErr != nil {
+			rt.Fatalf("%v", updateErr)
+		}
+		if failure != "" {
+			rt.Fatalf("%s (schedule dependent: GOMAXPROCS=%d readers=%d seed=%d)", failure, procs, readers, seed)
+		}
+		// the final state must be fully readable
+		sr, err := db.StateReader(head)
+		if err != nil {
+			rt.Fatalf("head %x not readable after the history: %v", head, err)
+		}
+		for _, a := range accts {
+			got, err := sr.(*reader).AccountRLP(a)
+			if err != nil || !c16Same(got, w.State(head).AccountBlob(a)) {
+				rt.Fatalf("account %x at final head %x: got %x err %v, model %x", a, head, got, err, w.State(head).AccountBlob(a))
+			}
+		}
+		nt := okReads.Load() > 0 && errReads.Load() > 0
+		c.NonTrivial(nt, fmt.Sprintf("%d/%d/%d/%x", maxDiffLayers, bufSize, n, head))
+		c.Classf("conc procs=%d", procs)
+		if errReads.Load() > 0 {
+			c.Class("conc-stale-error-observed")
+		}
+		c.Sample(nt, func() any {
+			return map[string]any{"steps": n, "readers": readers, "gomaxprocs": procs, "ok_reads": okReads.Load(), "error_reads": errReads.Load()}
+		})
+	})
+}
